@@ -64,6 +64,16 @@ PROPS = {
         'theorems': ['verdict_wellformed', 'nonstring_nonce_is_invalid', 'splitter_in_bounds', 'no_unexpected_type_assertions', 'no_unexpected_index_or_slice', 'no_explicit_panics'],
         'trusted': ['hand-written interaction-tree model of Process/redirectToIDP/retrieveTokens/refreshToken (AuthModel/Oidc/Handler.lean), tied to the code by the differential run (response + ordered action trace per request line)', 'oracles: jwt parsing and claims (jwx), JWS verification (checked against an independent stdlib RSA verification in the harness), SHA-256/base64url; url.Parse of the callback URI', 'library code (jwx, encoding/json, url.ParseQuery, go-redis) is sampled by the differential run, not proved'],
     },
-    'C09': {'theorems': [], 'module': 'Handler0', 'trusted': []},
-    'C04': {'theorems': [], 'module': 'Handler0', 'trusted': []},
+    'C03': {
+        'theorems': ['login_completes', 'no_reauth_while_valid', 'no_expires_in_no_expiry', 'cookie_read_back'],
+        'trusted': ['hand-written interaction-tree model of the handler tied to the code by the differential run', 'oracles: jwt parsing/claims (jwx), JWS verification, SHA-256; url.Parse of the callback URI', 'the three steps are composed through hypotheses that the store returns what was stored (C12) and that the browser presents the cookie it was given (cookie_read_back)'],
+    },
+    'C04': {
+        'theorems': ['exchange_requires_state', 'challenge_matches', 'state_stored_under_issued_id', 'clear_consumes', 'callback_without_state_no_exchange', 'query_robust'],
+        'trusted': ['hand-written interaction-tree model of the handler tied to the code by the differential run', 'oracles: jwt parsing/claims (jwx), JWS verification, SHA-256; url.Parse of the callback URI', 'interleavings: per-check theorems hold for every thread under any schedule; cross-thread consumption (overlapping callbacks of one session) is exercised by enumerating interleavings on the real code, not proved; generator freshness/distinctness is an assumption discharged by C06'],
+    },
+    'C09': {
+        'theorems': ['logout_answer', 'logout_answer_shape', 'logout_only_after_removal', 'removal_erases', 'ok_requires_tokens_read', 'writes_need_prior_read', 'resurrection_logout_answered', 'resurrection_inflight_ok', 'logout_resurrection'],
+        'trusted': ['hand-written interaction-tree model of the handler tied to the code by the differential run', 'oracles: jwt parsing/claims (jwx), JWS verification, SHA-256; url.Parse of the callback URI', 'schedule-level finality is NOT a theorem: the model exhibits the resurrection schedule (known finding); every interleaving of logout x one or two checks is enumerated on real goroutines and on the Sched model'],
+    },
 }
